@@ -452,8 +452,11 @@ def history(ctx: Ctx, rng, mutable: bool, steps: int, classes: List[str], origin
         rp = dict(kind="history", mutable=mutable, pool=build, trace=[(n, i, dict(ar)) for n, i, ar in trace][-12:],
                   step=step, classes=classes)
         if res[0] == "err" and not M.is_documented(name, res[1]):
-            ctx.prop_fail(f"history step {step}: {name} raised {type(res[1]).__name__}: {str(res[1])[:100]} "
-                          f"(allow_mutable={mutable})", rp, None)
+            # not an immutability question (C19 judges undocumented errors); the operands must
+            # nevertheless be unchanged after a failed call, which is checked below
+            ctx.stat("history:undocumented_exception")
+            if ctx.stats["history:undocumented_exception"] <= 3:
+                ctx.note(f"history: {name} raised {type(res[1]).__name__}: {str(res[1])[:100]} (judged by C19, not C18)")
         # 1. no effective write to any tracked container
         ch = log.changes()
         if ch:
